@@ -457,9 +457,18 @@ example : (locStores (some (locCount 1025)) (fun k => k / 512 * 8194) 1025).map 
 /-! ## file contents -/
 
 open Sqfs.Pack in
-/-- **File contents read back** (re-export of C17/C08's theorem under the C01 name): for every block size, flag
-set, order and codec meeting the contract, reading file `i` from the `specPack` layout — block list, holes, tail in a
-fragment block, deduplicated or not — yields exactly the file's bytes. -/
+/-- **File contents read back — at specification level** (re-export of C17/C08's theorem under the C01 name): for every
+block size, flag set, order and codec meeting the contract, reading file `i` from the `specPack` layout — block list,
+holes, tail in a fragment block, deduplicated or not — with the *specification* reader `readFile` yields exactly the
+file's bytes.  What this is **not**: a statement about the models of the code.  Those are, on the writer's side, C02/C08's
+block processor (`Sqfs.C02.run_eq_spec`: for every backlog the real processor computes `packRef`; `Sqfs.C08.stream_readback`,
+`stream_frag_link`: the output file holds every file's stored blocks and every fragment block at the recorded places) and,
+on the reader's side, C10's `DataReader.readSpec` = `sqfs_data_reader_read` (`Sqfs.C10.written_file_content`: for an inode
+and data satisfying `DataReader.Written` it returns the blocks' bytes followed by the tail;
+`read_eq_blocks_plus_fragment`, `stream_eq_read`: the other two reading APIs agree).  **Missing links**, neither proved
+here nor elsewhere: `packRef = specPack` (C02 `run_eq_specPack_partial` states what is missing) and `DataReader.Written`
+for the inodes/file/fragment table of `specPack` (or of `packRef`).  They are exercised on every run: C02/C17's ties
+compare the real processor with `packRef` and `specPack`; C01's tool paths (a), (d), (e) read every file's bytes back. -/
 theorem file_content_roundtrip (P : Params) (hB : 0 < P.B) (hc : P.codec.Ok) (files : List InFile) (i : Nat)
     (h : i < files.length) :
     ∃ r, (specPack P files).files[i]? = some r ∧ readFile P (specPack P files) r = files[i].data :=
